@@ -50,6 +50,16 @@ CLAIMED = {
         design='DESIGN.md §5 C10',
         note=NOTE_COMMON + 'fetchmany sizes are non-negative.',
         technique='Lean 4 invariant/refinement proof over the cursor state machine + exhaustive op-sequence correspondence'),
+    'C15': dict(
+        text=('Lean theorems over the pivot model: every output row has exactly one value per described column and starts '
+              'with its group key; block (r,k) holds the remaining-column values of the unique row with (first, second) = (r,k) '
+              'and NULLs otherwise (block placement by splice proved for all widths); key set distinct and sorted; adjacent '
+              'grouping loses/invents nothing; rows sorted by the first column (stable permutation). Tied to the code by '
+              'correspondence over exhaustive sparse 3x3 grids, random typed grids, invalid-reference rejection, and an '
+              'independent un-pivot oracle run on the implementation output.'),
+        design='DESIGN.md §5 C15',
+        note=NOTE_COMMON + 'NULL pivot keys raise TypeError (known finding F-20); pivot keys of one comparable class.',
+        technique='Lean 4 proof of block placement/width + differential correspondence + un-pivot oracle'),
 }
 
 PENDING_REASON = 'check under construction in this round (model or correspondence not yet registered); not claimed yet'
